@@ -98,7 +98,9 @@ func init() {
 			"(c) schedules: the W1-W4 pipeline scenarios under the controlled scheduler: sink bytes equal the sequential Writer's in every interleaving within preemption bound 1 (thorough 2). distinct_nontrivial = compressions/frames compared.",
 		Assumptions: []string{"ReadFrom and Write deliveries are compared within their own family (ReadFrom ends a stream whose length is a multiple of the block size with an empty block)",
 			"Flush deliveries are excluded: Flush legitimately moves block boundaries"},
-		Alt: []string{"sched"},
+		Alt:        []string{"sched"},
+		ReplayIn:   "sched",
+		ReplayInIf: func(raw []byte) bool { return bytes.Contains(raw, []byte(`"scenario"`)) },
 		Run: func(c *ev.Ctx) {
 			if Flavour == "sched" {
 				bound := 1
@@ -126,6 +128,11 @@ func init() {
 			cov["explanation"] = "states/transitions: scheduler states of part (c) plus compressor-history states of part (a); every trace is an execution of the real code"
 		},
 		Replay: func(c *ev.Ctx) {
+			var ks schedCase
+			if err := json.Unmarshal(c.ReplayRaw, &ks); err == nil && ks.Scenario != "" {
+				replayScenario(c, c08Scenarios(true))
+				return
+			}
 			var k c14Case
 			if err := json.Unmarshal(c.ReplayRaw, &k); err == nil && k.Kind == "frames" {
 				in := k.A.In.build()
